@@ -8,7 +8,8 @@ import GV.Spec.MapKey
 
   `mapkey` (tie with the real prelude `keyFor` functions under Node):
      reset                              forget `$idCounter`, `$id`s, registry
-     deftype <tid> <strhex> …           dynamic type `tid` has `c.string = str` (rest of the line is for the JS side)
+     deftype <tid> <strhex> <named> <type> <jsid>   dynamic type `tid` has `typ.id = jsid` in the prelude (learned in a pre-pass);
+                                        answer = strhex (the JS side answers the real `typ.string`)
      key  <type> <value>                ->  <key>
      pair <type> <value> <value>        ->  <key1> <key2> <model: keys equal 0/1> <spec: Go == 0/1>
   `gomap` (tie with compiled programs): begin / reg / key / op …  (see `GV.Driver.C15.gomap`)
@@ -85,9 +86,19 @@ def showKey : JKey → String
 
 def b01 (b : Bool) : String := if b then "1" else "0"
 
-/-- registry of dynamic type strings -/
-abbrev Reg := List (Nat × Str)
-def Reg.fn (r : Reg) (tid : Nat) : Str := (r.lookup tid).getD [63]
+/-- protocol type number ↦ the prelude's `typ.id` -/
+abbrev Reg := List (Nat × Nat)
+def Reg.fn (r : Reg) (tid : Nat) : Nat := (r.lookup tid).getD (1000000 + tid)
+
+mutual
+partial def mapTid (f : Nat → Nat) : KVal → KVal
+  | .iface tid v => .iface (f tid) (mapTid f v)
+  | .tuple a es => .tuple a (mapTids f es)
+  | v => v
+partial def mapTids (f : Nat → Nat) : KVals → KVals
+  | .nil => .nil
+  | .cons h t => .cons (mapTid f h) (mapTids f t)
+end
 
 /-! ### topic gomap: state of one compiled-program case -/
 
@@ -106,11 +117,11 @@ def findIdx (univ : Array KVal) (k : KVal) : Int :=
   | none => -1
 
 /-- what `dig(m)` of the generated program prints; performs the same lookups (they call `keyFor`) -/
-def digest (reg : Nat → Str) (c : Case) : String × Case := Id.run do
+def digest (c : Case) : String × Case := Id.run do
   let mut ms := c.ms
   let mut look := ""
   for i in [0:c.univ.size] do
-    let r := step reg ms (.commaOk c.univ[i]!)
+    let r := step halfFs ms (.commaOk c.univ[i]!)
     ms := r.1
     match r.2 with
     | .valOk v true => look := look ++ s!"{i}={v};"
@@ -124,7 +135,7 @@ def digest (reg : Nat → Str) (c : Case) : String × Case := Id.run do
   | none => pure ()
   | some jm =>
     -- `for k, v := range m` without mutation: every live entry once (GV.Props.C15.range_readonly)
-    let l := range reg (fun _ u => ([], u)) jm ms.st ()
+    let l := range halfFs (fun _ u => ([], u)) jm ms.st ()
     for (_, (k, v)) in l.visited do
       let j := findIdx c.univ k
       cnt := cnt + 1
@@ -143,20 +154,20 @@ structure RangeBook where
   stepNo : Nat := 0
 
 /-- what `rng(m, t, del, ins, w)` of the generated program prints -/
-def rangeMut (reg : Nat → Str) (c : Case) (t : Nat) (del ins : List Nat) (w : Int) : String × Case := Id.run do
+def rangeMut (c : Case) (t : Nat) (del ins : List Nat) (w : Int) : String × Case := Id.run do
   let n := c.univ.size
   let mut ms := c.ms
   let mut init : Array Bool := #[]
   let mut rep : Array Int := #[]
   for i in [0:n] do
-    let r := step reg ms (.commaOk c.univ[i]!)
+    let r := step halfFs ms (.commaOk c.univ[i]!)
     ms := r.1
     init := init.push (match r.2 with | .valOk _ true => true | _ => false)
     rep := rep.push (findIdx c.univ c.univ[i]!)
   match ms.m with
   | none => return ("R 0 0 0", { c with ms := ms })
   | some jm =>
-    let l0 := range reg (fun _ u => ([], u)) jm ms.st ()
+    let l0 := range halfFs (fun _ u => ([], u)) jm ms.st ()
     let nanInit := (l0.visited.filter fun (_, (k, _)) => findIdx c.univ k < 0).length
     let univ := c.univ
     let body : Body RangeBook := fun e b =>
@@ -176,7 +187,7 @@ def rangeMut (reg : Nat → Str) (c : Case) (t : Nat) (del ins : List Nat) (w : 
         (del.map (fun d => Mut.delete univ[d]!) ++ ins.map (fun i => Mut.store univ[i]! w),
           { b with stepNo := b.stepNo + 1 })
       else ([], { b with stepNo := b.stepNo + 1 })
-    let l := range reg body jm ms.st
+    let l := range halfFs body jm ms.st
       { visits := Array.replicate n 0, dead := Array.replicate n false, gone := Array.replicate n false }
     let b := l.user
     let mut need := 0
@@ -200,55 +211,55 @@ def parsePairs (s : String) : Option (List (Nat × Int)) :=
       | _, _ => none
     | _ => none
 
-def gomapOp (reg : Nat → Str) (c : Case) : List String → String × Case
+def gomapOp (c : Case) : List String → String × Case
   | ["set", i, v] =>
     match i.toNat?, v.toInt? with
     | some i, some v =>
-      let r := step reg c.ms (.store c.univ[i]! v)
+      let r := step halfFs c.ms (.store c.univ[i]! v)
       let tag := match r.2 with | .panicNilMap => "PN" | _ => "S"
-      let d := digest reg { c with ms := r.1 }
+      let d := digest { c with ms := r.1 }
       (s!"{tag} {d.1}", d.2)
     | _, _ => ("bad-op", c)
   | ["del", i] =>
     match i.toNat? with
     | some i =>
-      let r := step reg c.ms (.delete c.univ[i]!)
-      let d := digest reg { c with ms := r.1 }
+      let r := step halfFs c.ms (.delete c.univ[i]!)
+      let d := digest { c with ms := r.1 }
       (s!"X {d.1}", d.2)
     | _ => ("bad-op", c)
   | ["get", i] =>
     match i.toNat? with
     | some i =>
-      let r := step reg c.ms (.index c.univ[i]!)
+      let r := step halfFs c.ms (.index c.univ[i]!)
       let v := match r.2 with | .val v => v | _ => 0
-      let d := digest reg { c with ms := r.1 }
+      let d := digest { c with ms := r.1 }
       (s!"G{v} {d.1}", d.2)
     | _ => ("bad-op", c)
   | ["make"] =>
-    let r := step reg c.ms .make
-    let d := digest reg { c with ms := r.1 }
+    let r := step halfFs c.ms .make
+    let d := digest { c with ms := r.1 }
     (s!"M {d.1}", d.2)
   | ["nil"] =>
-    let r := step reg c.ms .setNil
-    let d := digest reg { c with ms := r.1 }
+    let r := step halfFs c.ms .setNil
+    let d := digest { c with ms := r.1 }
     (s!"N {d.1}", d.2)
   | ["unh"] =>
-    let r := step reg c.ms .unhashable
+    let r := step halfFs c.ms .unhashable
     let tag := match r.2 with | .panicUnhashable => "U1" | _ => "U0"
-    let d := digest reg { c with ms := r.1 }
+    let d := digest { c with ms := r.1 }
     (s!"{tag} {d.1}", d.2)
   | ["lit", ps] =>
     match parsePairs ps with
     | some ps =>
-      let r := step reg c.ms (.literal (ps.map fun (i, v) => (c.univ[i]!, v)))
-      let d := digest reg { c with ms := r.1 }
+      let r := step halfFs c.ms (.literal (ps.map fun (i, v) => (c.univ[i]!, v)))
+      let d := digest { c with ms := r.1 }
       (s!"L {d.1}", d.2)
     | none => ("bad-op", c)
   | ["rng", t, del, ins, w] =>
     match t.toNat?, parseNatList del, parseNatList ins, w.toInt? with
     | some t, some del, some ins, some w =>
-      let r := rangeMut reg c t del ins w
-      let d := digest reg r.2
+      let r := rangeMut c t del ins w
+      let d := digest r.2
       (s!"{r.1} {d.1}", d.2)
     | _, _, _, _ => ("bad-op", c)
   | _ => ("bad-op", c)
@@ -257,19 +268,21 @@ def handle (s : DSt) : List String → DSt × String
   | "mapkey" :: args =>
     match args with
     | ["reset"] => ({ s with reg := [], kst := KSt.init }, "ok")
-    | "deftype" :: tid :: strhex :: _ =>
-      match tid.toNat?, parseHex strhex with
-      | some tid, some str => ({ s with reg := (tid, str) :: s.reg }, toHex str)
-      | _, _ => (s, "bad-op")
+    | ["deftype", tid, strhex, _, _, jsid] =>
+      match tid.toNat?, parseHex strhex, jsid.toNat? with
+      | some tid, some str, some jsid => ({ s with reg := (tid, jsid) :: s.reg }, toHex str)
+      | _, _, _ => (s, "bad-op")
     | ["key", _, v] =>
       match parseValue v with
-      | some v => let r := keyFor s.reg.fn v s.kst; ({ s with kst := r.2 }, showKey r.1)
+      | some v => let r := keyFor halfFs (mapTid s.reg.fn v) s.kst; ({ s with kst := r.2 }, showKey r.1)
       | none => (s, "bad-op")
     | ["pair", _, a, b] =>
       match parseValue a, parseValue b with
       | some a, some b =>
-        let r1 := keyFor s.reg.fn a s.kst
-        let r2 := keyFor s.reg.fn b r1.2
+        let a := mapTid s.reg.fn a
+        let b := mapTid s.reg.fn b
+        let r1 := keyFor halfFs a s.kst
+        let r2 := keyFor halfFs b r1.2
         ({ s with kst := r2.2 },
           s!"{showKey r1.1} {showKey r2.1} {b01 (r1.1 == r2.1)} {b01 (GV.Spec.MapKey.goEq a b)}")
       | _, _ => (s, "bad-op")
@@ -277,16 +290,13 @@ def handle (s : DSt) : List String → DSt × String
   | "gomap" :: args =>
     match args with
     | ["begin"] => ({ s with reg := [], cs := {} }, "ok")
-    | ["reg", tid, strhex] =>
-      match tid.toNat?, parseHex strhex with
-      | some tid, some str => ({ s with reg := (tid, str) :: s.reg }, "ok")
-      | _, _ => (s, "bad-op")
+    | ["reg", _, _] => (s, "ok")      -- type names no longer matter: a dynamic type is its id
     | ["key", v] =>
       match parseValue v with
       | some v => ({ s with cs := { s.cs with univ := s.cs.univ.push v } }, "ok")
       | none => (s, "bad-op")
     | "op" :: rest =>
-      let r := gomapOp s.reg.fn s.cs rest
+      let r := gomapOp s.cs rest
       ({ s with cs := r.2 }, r.1)
     | _ => (s, "bad-op")
   | _ => (s, "bad-topic")
